@@ -21,11 +21,14 @@ theorem orientation_table : tableOk Orientation.table Registry.orientation = tru
 theorem print_quality_table : tableOk PrintQuality.table Registry.printQuality = true := by decide +kernel
 theorem finishings_table : tableOk Finishings.table Registry.finishings = true := by decide +kernel
 
-/-- the delimiter and value tags the library *emits* (`as u8`) are exactly the registry's: the whole
-    tables coincide, not only are compatible -/
-theorem delimiter_table_exact : DelimiterTag.table = Registry.delimiterTag := by decide +kernel
-theorem value_tag_table_exact : ValueTag.table = Registry.valueTag := by decide +kernel
-theorem operation_table_exact : Operation.table = Registry.operation := by decide +kernel
+/-- same entries, in any order -/
+def sameEntries (a b : List (Bytes × Nat)) : Bool := a.all (fun p => b.contains p) && b.all (fun p => a.contains p)
+
+/-- the delimiter tags, value tags and operation ids the library *emits* (`as u8` / `as u16`) are exactly the
+    registries': the tables coincide as sets (the order of the variants in the source is irrelevant) -/
+theorem delimiter_table_exact : sameEntries DelimiterTag.table Registry.delimiterTag = true := by decide +kernel
+theorem value_tag_table_exact : sameEntries ValueTag.table Registry.valueTag = true := by decide +kernel
+theorem operation_table_exact : sameEntries Operation.table Registry.operation = true := by decide +kernel
 
 /-! ### status decoding is total and never confuses codes -/
 
